@@ -140,6 +140,7 @@ func WrapHandler(waf coraza.WAF, h http.Handler) http.Handler {
 			tx.DebugLogger().Error().Err(err).Msg("Failed to process request")
 			return
 		} else if it != nil {
+			setInterruptionHeaders(w.Header(), it)
 			w.WriteHeader(obtainStatusCodeFromInterruptionOrDefault(it, http.StatusOK))
 			return
 		}
@@ -159,15 +160,31 @@ func WrapHandler(waf coraza.WAF, h http.Handler) http.Handler {
 }
 
 // obtainStatusCodeFromInterruptionOrDefault returns the desired status code derived from the interruption
-// on a "deny" action or a default value.
+// on a "deny" or "redirect" action or a default value.
 func obtainStatusCodeFromInterruptionOrDefault(it *types.Interruption, defaultStatusCode int) int {
-	if it.Action == "deny" {
+	switch it.Action {
+	case "deny":
 		statusCode := it.Status
 		if statusCode == 0 {
 			statusCode = 403
 		}
 
 		return statusCode
+	case "redirect":
+		statusCode := it.Status
+		if statusCode == 0 {
+			statusCode = http.StatusFound
+		}
+
+		return statusCode
 	}
 	return defaultStatusCode
+}
+
+// setInterruptionHeaders sets the response headers required by the action of
+// the interruption: a "redirect" carries its target in the Location header.
+func setInterruptionHeaders(h http.Header, it *types.Interruption) {
+	if it.Action == "redirect" && it.Data != "" {
+		h.Set("Location", it.Data)
+	}
 }
